@@ -36,11 +36,18 @@ def run(ctx: Ctx) -> dict:
     n = 2 if ctx.quick else 12
     ops = []
     seeds = 0
+    import c06
+    by_cc = {}
+    for iban in c06.national_valid_ibans(ctx, {gen.cc_of(r): r for r in table}, rng, n, "c03"):
+        by_cc.setdefault(iban[:2], []).append(iban)
     for row in table:
         if gen.row_classes(row) is None:
             continue
-        for k in range(n):
-            iban = gen.valid_iban(row, rng, "letters" if k == 1 else "random")
+        # class-wise random valid IBANs, and (where a national algorithm exists) nationally valid ones:
+        # the IBANs that occur in practice
+        pool = [gen.valid_iban(row, rng, "letters" if k == 1 else "random") for k in range(n)]
+        pool += by_cc.get(gen.cc_of(row), [])
+        for iban in pool:
             seeds += 1
             ops.append({"op": "iban.new", "t": cps(iban), "vb": False, "err": "none"})
             for p in range(2, len(iban)):
